@@ -93,10 +93,16 @@ pub struct RefStore {
     pub blob_header_len: u64,
     /// record-count limit of a blob (rotation is requested by the write that reaches it)
     pub max_data: u64,
-    /// a deferred index dump is registered with the worker (dumps of blobs closed by an
-    /// overflow switch wait for it)
-    pub deferred_pending: bool,
+    /// virtual time in seconds (advanced by the Tick operations only)
+    pub now: u64,
+    /// a deferred index dump is registered with the worker: (first event, last event)
+    pub deferred: Option<(u64, u64)>,
+    /// next time the worker looks at the deferred dump
+    pub deadline: Option<u64>,
 }
+
+pub const DEFER_MIN: u64 = 60;
+pub const DEFER_MAX: u64 = 180;
 
 impl RefStore {
     pub fn fresh(allow_duplicates: bool) -> Self {
@@ -109,7 +115,9 @@ impl RefStore {
             allow_duplicates,
             blob_header_len: 20,
             max_data: u64::MAX,
-            deferred_pending: false,
+            now: 0,
+            deferred: None,
+            deadline: None,
         };
         s.create_active();
         s
@@ -222,17 +230,44 @@ impl RefStore {
             let a = self.active.take().unwrap();
             self.closed.push(Some(a));
             self.create_active();
-            if !self.deferred_pending {
+            // the dump joins a registered deferred dump, otherwise it runs at once
+            if self.deferred.is_some() {
+                self.defer();
+            } else {
                 self.dump_closed();
             }
         }
         true
     }
 
-    /// the paused clock passes the deferred-dump deadline
-    pub fn tick(&mut self) {
-        self.deferred_pending = false;
-        self.dump_closed();
+    /// an event that postpones / registers the deferred index dump
+    fn defer(&mut self) {
+        let d = match self.deferred {
+            Some((first, _)) => (first, self.now),
+            None => (self.now, self.now),
+        };
+        self.deferred = Some(d);
+        let next = (d.0 + DEFER_MAX).min(d.1 + DEFER_MIN);
+        self.deadline = Some(self.deadline.map_or(next, |x| x.min(next)));
+    }
+
+    /// the paused clock advances by `dt` seconds
+    pub fn tick(&mut self, dt: u64) {
+        self.now += dt;
+        while let Some(dl) = self.deadline {
+            if dl >= self.now {
+                break;
+            }
+            self.deadline = None;
+            if let Some((first, last)) = self.deferred {
+                if self.now - last >= DEFER_MIN || self.now - first >= DEFER_MAX {
+                    self.deferred = None;
+                    self.dump_closed();
+                } else {
+                    self.deadline = Some((first + DEFER_MAX).min(last + DEFER_MIN));
+                }
+            }
+        }
     }
 
     /// the highest-id blob is damaged on disk so that the next start quarantines it
@@ -286,7 +321,7 @@ impl RefStore {
             }
         }
         if in_closed {
-            self.deferred_pending = true;
+            self.defer();
         }
         n
     }
@@ -361,7 +396,8 @@ impl RefStore {
         }
         self.next_id = self.ever_ids.iter().next_back().map_or(0, |m| m + 1);
         self.active = None;
-        self.deferred_pending = false;
+        self.deferred = None;
+        self.deadline = None;
         if !lazy {
             if let Some(mut a) = all.pop() {
                 a.index_on_disk = false;
